@@ -323,6 +323,7 @@ fn manifest_view(dir: &Path) -> Option<(Option<String>, Option<u64>, Vec<String>
 }
 
 fn run_case(c: &Case, dir: &Path) -> RunResult {
+    kvh::panicrec::set_input_debug(c);
     let _ = std::fs::remove_dir_all(dir);
     std::fs::create_dir_all(dir).unwrap();
     let mut res = RunResult::default();
@@ -755,6 +756,7 @@ fn coq_file(body: &str, it: &Intern) -> String {
 // ------------------------------------------------------------------------------------------------
 
 fn main() {
+    kvh::panicrec::install();
     let args: Vec<String> = std::env::args().collect();
     let mut out = String::from("/verif/.cache/run/C02");
     let mut n = 300usize;
